@@ -317,6 +317,12 @@ func C09(c *fw.Ctx) {
 		sp *splitProject
 	}
 	pending := map[string]*pend{}
+	type sharedCase struct {
+		unsplit, split *proto.Result
+		files          map[string][]byte
+		doc            []byte
+	}
+	shared := map[string]*sharedCase{}
 	var names []string
 	for n := range docs {
 		names = append(names, n)
@@ -334,6 +340,46 @@ func C09(c *fw.Ctx) {
 			pending[id] = &pend{d, sp}
 			maxMuLock.Unlock()
 			emit(&proto.Job{ID: id, Root: "root.jst", Files: sp.content, Ops: []string{"json"}, WantPhases: true, WantFiles: true})
+		}
+		// the same piece included from several places: hand-made families where repetition is legal
+		sr := gen.Rng(c.Seed, c.ID, "shared")
+		pieces := []string{
+			"  GET\n    Path\n    {\n      \"id\": 1\n    }\n    200 any\n",
+			"  GET // get it\n    Description\n      shared text\n    200 any\n    404 empty\n",
+			"  Path\n  {\n    \"id\": 5 // {min: 1}\n  }\n  GET\n    200 any\n  POST\n    Request any\n    201 any\n",
+			"  DELETE\n    Path\n      {\"id\": \"x\"}\n    Query \"a=1\"\n      {\"a\": 1}\n    204 empty\n",
+			"  GET\n  (\n    Path\n    {\"id\": 1}\n    200\n      Headers\n        {\"X\": \"v\"}\n      Body any\n  )\n",
+			"  PUT\n    Path\n    {\"id\": 1}\n    Request\n      Headers\n        {\"H\": \"v\"}\n      Body\n        {\"k\": 1}\n    200 any\n  PATCH\n    200 any\n",
+		}
+		for i := 0; i < c.Pick(60, 1500); i++ {
+			k := 2 + sr.Intn(3)
+			piece := pieces[sr.Intn(len(pieces))]
+			var un, sp strings.Builder
+			un.WriteString("JSIGHT 0.3\n")
+			sp.WriteString("JSIGHT 0.3\n")
+			files := map[string][]byte{}
+			pname := "piece.jst"
+			if sr.Intn(3) == 0 {
+				pname = "mixins/piece.jst"
+			}
+			for q := 0; q < k; q++ {
+				head := fmt.Sprintf("URL /r%d/{id}\n", q)
+				un.WriteString(head + piece)
+				sp.WriteString(head + "  INCLUDE " + pname + "\n")
+				if sr.Intn(3) == 0 {
+					extra := fmt.Sprintf("TYPE @between%d any\n", q)
+					un.WriteString(extra)
+					sp.WriteString(extra)
+				}
+			}
+			files["root.jst"] = []byte(sp.String())
+			files[pname] = []byte(piece)
+			id := fmt.Sprintf("shared-%d", i)
+			maxMuLock.Lock()
+			shared[id] = &sharedCase{files: files, doc: []byte(un.String())}
+			maxMuLock.Unlock()
+			emit(&proto.Job{ID: "sharedU/" + id, Root: "root.jst", Files: map[string][]byte{"root.jst": []byte(un.String())}, Ops: []string{"json"}, WantPhases: true})
+			emit(&proto.Job{ID: "sharedS/" + id, Root: "root.jst", Files: files, Ops: []string{"json"}, WantPhases: true, WantFiles: true})
 		}
 		for _, name := range names {
 			d := docs[name]
@@ -363,6 +409,48 @@ func C09(c *fw.Ctx) {
 		}
 	}, func(j *proto.Job, res *proto.Result) {
 		if workerProblem(c, res) {
+			return
+		}
+		if strings.HasPrefix(j.ID, "shared") {
+			id := j.ID[strings.Index(j.ID, "/")+1:]
+			maxMuLock.Lock()
+			sc := shared[id]
+			if strings.HasPrefix(j.ID, "sharedU/") {
+				sc.unsplit = res
+			} else {
+				sc.split = res
+			}
+			done := sc.unsplit != nil && sc.split != nil
+			maxMuLock.Unlock()
+			if !done {
+				return
+			}
+			c.Count(jobKey(&proto.Job{Root: "root.jst", Files: sc.files}), true)
+			c.Inc("verdicts", "shared-piece-projects", 1)
+			rp := &fw.Replay{Jobs: []*proto.Job{{ID: "unsplit", Root: "root.jst", Files: map[string][]byte{"root.jst": sc.doc}, Ops: []string{"json"}}, {ID: "split", Root: "root.jst", Files: sc.files, Ops: []string{"json"}}},
+				Results: []interface{}{sc.unsplit, sc.split}, Expected: map[string]interface{}{"files": filesAsStrings(sc.files)}}
+			for _, r := range []*proto.Result{sc.unsplit, sc.split} {
+				if sig, what := crashSig(r); sig != "" {
+					c.Violate(sig, what, rp)
+					return
+				}
+			}
+			if !sc.unsplit.Accepted {
+				c.Inconclusive("a hand-made shared-piece document is rejected: " + sc.unsplit.Err.Msg)
+				return
+			}
+			if !sc.split.Accepted {
+				c.Violate("shared-piece:rejected", fmt.Sprintf("a piece included from several places: the unsplit document is accepted, the split project is rejected: %q at %s:%d", trunc(sc.split.Err.Msg, 140), relName(sc.split, sc.split.Err.File), sc.split.Err.Line), rp)
+				return
+			}
+			a, b := findOut(sc.unsplit, "json"), findOut(sc.split, "json")
+			if a != nil && b != nil && a.Bytes != nil && b.Bytes != nil && string(a.Bytes) != string(b.Bytes) {
+				c.Violate("shared-piece:catalog-changed", "a piece included from several places changes the catalog: "+firstDiff(string(a.Bytes), string(b.Bytes)), rp)
+				return
+			}
+			if treeShape(sc.unsplit.Expand) != treeShape(sc.split.Expand) {
+				c.Violate("shared-piece:tree-changed", "a piece included from several places changes the directive tree", rp)
+			}
 			return
 		}
 		maxMuLock.Lock()
